@@ -125,10 +125,10 @@ Qed.
 
 (* ---------- tie to the source: the part of the model this property rests on is what /verif/translate derives from
    /repo's Go source on this run (Generated/*.v are rewritten before every build; see DESIGN.md section 9) ---------- *)
-From HC.Generated Require Import SrcHit SrcStatus.
-From HC.Proofs Require Import TieHit TieStatus.
-Theorem C13_source_decision : forall q e now, src_decide_hit q e now = decide_hit q e now.
-Proof. exact tie_decide_hit. Qed.
+From HC.Generated Require Import SrcEffects SrcStatus.
+From HC.Proofs Require Import ProgEq TieEffects TieStatus.
+Theorem C13_source_decision : forall q e k refs i, peq (src_handle_cache_hit q e k refs i) (handle_cache_hit q e k refs i).
+Proof. exact tie_handle_cache_hit. Qed.
 Theorem C13_source_error_statuses : forall code, src_is_stale_error_allowed code = is_stale_error_allowed code.
 Proof. exact tie_is_stale_error_allowed. Qed.
 Print Assumptions C13_source_decision.
